@@ -61,6 +61,16 @@ type Cfg struct {
 	// with the cri decoder and has its antispam enabled (with a threshold nothing reaches): Pipeline.In then applies
 	// its own early "already committed" test to the per-stream offsets the file worker hands over
 	CRI bool `json:"cri,omitempty"`
+	// Archive: a complete lz4-compressed log (arch.lz4) that lies in the watched directory from the start. Its lines
+	// are promised like any others; offsets are positions in the decompressed content, and after a restart the
+	// worker decodes and skips what was committed instead of seeking
+	Archive []ArchLine `json:"lz4_archive,omitempty"`
+}
+
+type ArchLine struct {
+	ID     int    `json:"id"`
+	Stream string `json:"stream"`
+	Pad    int    `json:"pad"`
 }
 
 func (c *Cfg) SimCfg() *simrt.Config { return &c.Sim }
@@ -232,6 +242,12 @@ func (h *H) Gen(rng *rand.Rand, tier, prop string) core.Cfg {
 			c.Ops = append(c.Ops, op)
 		}
 	}
+	if core.Chance(rng, 0.12) {
+		for i, k := 0, core.Between(rng, 3, 30); i < k; i++ {
+			id++
+			c.Archive = append(c.Archive, ArchLine{ID: id, Stream: streams[rng.IntN(len(streams))], Pad: core.Between(rng, 0, 60)})
+		}
+	}
 	c.Power = core.Chance(rng, 0.3)
 	c.Sim.QuietAt = total + 10*time.Second
 	c.Bound = 90 * time.Second
@@ -316,6 +332,19 @@ func (h *H) Shrink(cc core.Cfg) []core.Cfg {
 		d := clone()
 		d.Workers = 1
 		out = append(out, d)
+	}
+	if na := len(c.Archive); na > 0 {
+		d := clone()
+		d.Archive = nil
+		out = append(out, d)
+		if na > 1 {
+			d := clone()
+			d.Archive = append([]ArchLine(nil), c.Archive[:na/2]...)
+			out = append(out, d)
+			d = clone()
+			d.Archive = append([]ArchLine(nil), c.Archive[na/2:]...)
+			out = append(out, d)
+		}
 	}
 	return out
 }
@@ -687,6 +716,25 @@ func (h *H) Run(cc core.Cfg, sim *simrt.Sim) *core.Outcome {
 			fs.WriteFileDirect(logPath(f), nil)
 			r.curIno[f] = fs.Ino(logPath(f))
 		}
+		if len(cfg.Archive) > 0 && file.VerifTreatedAsLz4("arch.lz4") {
+			var content []byte
+			var ls []*lineInfo
+			for _, a := range cfg.Archive {
+				l := &lineInfo{id: a.ID, stream: a.Stream, file: -1, complete: true}
+				l.text = r.lineText(l, a.Pad)
+				content = append(content, l.text...)
+				l.endOff = int64(len(content))
+				ls = append(ls, l)
+			}
+			fs.WriteFileDirect(logDir+"/arch.lz4", lz4Frame(content))
+			ino := fs.Ino(logDir + "/arch.lz4")
+			for _, l := range ls {
+				l.inode = ino
+				r.lines[l.id] = l
+				r.order = append(r.order, l)
+			}
+			o.Probes["lz4-archive-runs"]++
+		}
 		writerDone := false
 		simrt.Go("log-writer", func() { r.writer(); writerDone = true })
 		grp := r.startIncarnation()
@@ -811,7 +859,10 @@ func (r *run) evaluate() {
 	if r.killsDone == 0 {
 		sig += "/no-kill"
 	}
-	if r.truncations > 0 {
+	if l.file == -1 {
+		// a line of the compressed archive, which nobody truncates
+		sig += "/lz4-archive"
+	} else if r.truncations > 0 {
 		sig += "/after-truncation"
 		if r.truncMultiStream {
 			sig += "/multi-stream-file-with-uncommitted-lines-at-the-truncation"
